@@ -454,6 +454,7 @@ type Frame struct {
 	loopVariant map[*ssa.BasicBlock]string
 	lastState *State
 	parent *Frame
+	siteIDs map[string]map[ssa.Instruction]int
 }
 
 type closureInfo struct {
